@@ -9,6 +9,15 @@
 //   bodies : '-' or <c>=<instrs>/<c>=<instrs>  — what callback c does when invoked (same syntax)
 // e.g.  "R0,D0/S/S" "0=D1"
 //
+// Optional third argument "fused" | "adapter": two sources.  The instructions above then address the
+// INNER source (the fused_stop_source itself / the adapter's source_), and
+//            s    upstream.request_stop()                q    upstream.stop_requested()
+//            A    attach: fused.register_callbacks(upstream token) / adapter.subscribe(token)
+//            U    detach: deregister_callbacks() / unsubscribe()  (waits until A returned)
+// (only in thread programs).  The forwarding callback is the library's own functor, so it logs
+// nothing; actions "ub" (s/A begins), "us b" (s returned b), "att" (A returned), "uret" (U returned),
+// marker 19 before U.
+//
 // Callback objects live in raw storage (construct = placement new, D = destructor call followed
 // by poisoning the storage), so a use of a destroyed callback by the library is visible.
 // Owner synchronisation: D<c> first waits until the constructor of c returned.
@@ -17,6 +26,7 @@
 //   30+c  W<c> passed
 // Actions: "regd c" (constructor returned), "exec c" (body entered), "dret c" (destructor returned), "rs b" (request_stop returned b).
 #include <unifex/inplace_stop_token.hpp>
+#include <unifex/fused_stop_source.hpp>
 #include "vh.hpp"
 #include <new>
 using namespace unifex;
@@ -26,6 +36,19 @@ struct Instr { char op; int c; };
 using Prog = std::vector<Instr>;
 constexpr int MAXCB = 8;
 
+// a stop token type that is not inplace_stop_token, so that the generic inplace_stop_token_adapter is used
+struct wtoken {
+  inplace_stop_token tok;
+  bool stop_requested() const noexcept { return tok.stop_requested(); }
+  bool stop_possible() const noexcept { return tok.stop_possible(); }
+  template <typename F>
+  struct callback_type {
+    inplace_stop_callback<F> inner;
+    template <typename T>
+    callback_type(wtoken t, T&& f) noexcept : inner(t.tok, (T&&)f) {}
+  };
+};
+
 struct Shared;
 struct Fn {
   Shared* sh; int c;
@@ -34,7 +57,13 @@ struct Fn {
 using cb_t = inplace_stop_callback<Fn>;
 
 struct Shared {
+  int mode = 0;   // 0 single source, 1 fused_stop_source, 2 inplace_stop_token_adapter
   inplace_stop_source src;
+  inplace_stop_source up;
+  fused_stop_source<inplace_stop_token> fs;
+  inplace_stop_token_adapter<wtoken> ad;
+  bool attached = false;
+  inplace_stop_source& in() { return mode == 0 ? src : mode == 1 ? static_cast<inplace_stop_source&>(fs) : ad.source_; }
   alignas(cb_t) unsigned char store[MAXCB][sizeof(cb_t)];
   bool registered[MAXCB] = {};
   bool dstarted[MAXCB] = {};
@@ -43,7 +72,17 @@ struct Shared {
   cb_t* slot(int c) { return reinterpret_cast<cb_t*>(store[c]); }
   void name_all() {
     static const char* nm[MAXCB] = {"cb0.done", "cb1.done", "cb2.done", "cb3.done", "cb4.done", "cb5.done", "cb6.done", "cb7.done"};
-    dsched::name_range(&src.state_, sizeof(src.state_), "src.state");
+    dsched::name_range(&in().state_, sizeof(src.state_), "src.state");
+    if (mode != 0) {
+      dsched::name_range(&up.state_, sizeof(up.state_), "up.state");
+      if (mode == 1) {
+        using fct = decltype(fs)::fused_callback_type;
+        auto* f = reinterpret_cast<fct*>(&fs.callbacks_);   // payload of the optional
+        dsched::name_range(&f->callback_.callbackCompleted_, 1, "fwd.done");
+      } else {
+        dsched::name_range(&ad.callback_.get().inner.callbackCompleted_, 1, "fwd.done");
+      }
+    }
     dsched::name_range(&mark, sizeof(mark), "mark");
     for (int c = 0; c < MAXCB; ++c)
       dsched::name_range(&slot(c)->callbackCompleted_, sizeof(slot(c)->callbackCompleted_), nm[c]);
@@ -55,7 +94,7 @@ void run_prog(Shared* sh, const Prog& p) {
     Instr in = p[i];
     switch (in.op) {
       case 'R':
-        new (sh->store[in.c]) cb_t(sh->src.get_token(), Fn{sh, in.c});
+        new (sh->store[in.c]) cb_t(sh->in().get_token(), Fn{sh, in.c});
         sh->registered[in.c] = true;
         dsched::action("regd %d", in.c);
         break;
@@ -70,7 +109,7 @@ void run_prog(Shared* sh, const Prog& p) {
         break;
       }
       case 'S': {
-        bool r = sh->src.request_stop();
+        bool r = sh->in().request_stop();
         dsched::action("rs %d", (int)r);
         break;
       }
@@ -81,7 +120,30 @@ void run_prog(Shared* sh, const Prog& p) {
         break;
       }
       case 'Q':
-        (void)sh->src.get_token().stop_requested();
+        (void)sh->in().get_token().stop_requested();
+        break;
+      case 's': {
+        dsched::action("ub");
+        bool r = sh->up.request_stop();
+        dsched::action("us %d", (int)r);
+        break;
+      }
+      case 'q':
+        (void)sh->up.get_token().stop_requested();
+        break;
+      case 'A':
+        dsched::action("ub");
+        if (sh->mode == 1) sh->fs.register_callbacks(sh->up.get_token());
+        else (void)sh->ad.subscribe(wtoken{sh->up.get_token()});
+        sh->attached = true;
+        dsched::action("att");
+        break;
+      case 'U':
+        dsched::block_until([sh] { return sh->attached; });
+        sh->mark.store(19, std::memory_order_relaxed);
+        if (sh->mode == 1) sh->fs.deregister_callbacks();
+        else sh->ad.unsubscribe();
+        dsched::action("uret");
         break;
     }
   }
@@ -105,7 +167,7 @@ Prog parse_prog(const std::string& s) {
     std::string w = s.substr(i, j - i);
     if (!w.empty() && w != "-") {
       Instr in{w[0], w.size() > 1 ? std::atoi(w.c_str() + 1) : 0};
-      if (!std::strchr("RDSQW", in.op) || in.c < 0 || in.c >= MAXCB) { std::fprintf(stderr, "bad instruction %s\n", w.c_str()); std::exit(2); }
+      if (!std::strchr("RDSQWsqAU", in.op) || in.c < 0 || in.c >= MAXCB) { std::fprintf(stderr, "bad instruction %s\n", w.c_str()); std::exit(2); }
       p.push_back(in);
     }
     i = j + 1;
@@ -131,8 +193,11 @@ int main(int argc, char** argv) {
       bodies.at(std::atoi(b.substr(0, eq).c_str())) = parse_prog(b.substr(eq + 1));
     }
 
+  int mode = 0;
+  if (cli.prog.size() > 2) mode = cli.prog[2] == "fused" ? 1 : cli.prog[2] == "adapter" ? 2 : 0;
   auto make = [&]() -> std::vector<std::function<void()>> {
     auto sh = std::make_shared<Shared>();
+    sh->mode = mode;
     sh->bodies = bodies;
     std::vector<std::function<void()>> th;
     for (auto& p : threads)
@@ -144,7 +209,7 @@ int main(int argc, char** argv) {
   auto monitor = [&](const dsched::Result& r) -> std::string {
     int execs[MAXCB] = {}, running[MAXCB], dret[MAXCB] = {}, regd[MAXCB] = {};
     for (int& x : running) x = -1;
-    int rs0 = 0, rsall = 0; bool stopbit = false;
+    int rs0 = 0, rsall = 0, att = 0, us = 0, uret = 0; bool stopbit = false;
     for (auto& e : r.trace) {
       int t = -1, c = -1, v = -1; char buf[64];
       if (std::sscanf(e.c_str(), "t%d !exec %d", &t, &c) == 2) {
@@ -158,6 +223,9 @@ int main(int argc, char** argv) {
         dret[c] = 1;
         if (running[c] >= 0 && running[c] != t)
           return "deregistration of callback " + std::to_string(c) + " returned while it runs on thread " + std::to_string(running[c]);
+      } else if (e.find(" !att") != std::string::npos) { ++att;
+      } else if (e.find(" !us ") != std::string::npos) { ++us;
+      } else if (e.find(" !uret") != std::string::npos) { ++uret;
       } else if (std::sscanf(e.c_str(), "t%d !regd %d", &t, &c) == 2) {
         regd[c] = 1;
       } else if (std::sscanf(e.c_str(), "t%d !rs %d", &t, &v) == 2) {
@@ -174,6 +242,16 @@ int main(int argc, char** argv) {
         if (stopbit && !nowstop) return "stop bit reverted: " + e;
         stopbit = nowstop;
       }
+    }
+    if (mode != 0) {
+      // forwarding: attached and never detached, upstream stop requested => inner stop requested
+      if (att > 0 && us > 0 && uret == 0 && !stopbit) return "upstream stop request was not forwarded to the inner source";
+      if (rs0 > 1) return "request_stop returned false (first) " + std::to_string(rs0) + " times";
+      if (stopbit)
+        for (int c = 0; c < MAXCB; ++c)
+          if (regd[c] && !dret[c] && execs[c] != 1 && (rs0 == 1 || (att > 0 && us > 0 && uret == 0)))
+            return "callback " + std::to_string(c) + " still registered after the stop completed but never executed";
+      return "";
     }
     if (rs0 != (rsall > 0 ? 1 : 0))
       return "request_stop returned false (first) " + std::to_string(rs0) + " times out of " + std::to_string(rsall) + " calls";
